@@ -45,6 +45,7 @@ type depInfo struct {
 	pos       int
 	mined     bool
 	credited  bool
+	keyID     string // overrides the interned id of key (a malformed key whose first bytes equal a registered key's)
 }
 
 type wdTx struct {
@@ -267,7 +268,15 @@ func (g *bridgeGen) ownScriptV1Deposit(key *sim.BtcKey, evm []byte) *depInfo {
 	if err != nil || keyType(key) != "secp256k1" {
 		return nil
 	}
-	out0, err := txscript.NewScriptBuilder().AddOp(txscript.OP_0).AddData(goatcrypto.Hash160Sum(key.Pub.GetSecp256K1())).Script()
+	keyBytes, keyID := key.Pub.GetSecp256K1(), ""
+	if g.r.Intn(4) == 0 {
+		// a MALFORMED key: a real key followed by extra bytes (34+ bytes). It is no relayer key, whatever its first 33 bytes are;
+		// the script below is the one such a "key" would own
+		keyBytes = append(append([]byte{}, keyBytes...), byte(1+g.r.Intn(255)))
+		key = &sim.BtcKey{Pub: &relayertypes.PublicKey{Key: &relayertypes.PublicKey_Secp256K1{Secp256K1: keyBytes}}}
+		keyID = project.KeyID(key.Pub) + "+pad"
+	}
+	out0, err := txscript.NewScriptBuilder().AddOp(txscript.OP_0).AddData(goatcrypto.Hash160Sum(keyBytes)).Script()
 	if err != nil {
 		return nil
 	}
@@ -276,8 +285,12 @@ func (g *bridgeGen) ownScriptV1Deposit(key *sim.BtcKey, evm []byte) *depInfo {
 		return nil
 	}
 	value := int64(12000 + g.r.Intn(60000))
-	d := &depInfo{version: 1, key: key, evm: evm, value: value, outIdx: 0, nOuts: 2,
-		gen: Ev{"key": project.KeyID(key.Pub), "evm": hex.EncodeToString(evm), "version": 1, "magicOk": true}}
+	genKey := project.KeyID(key.Pub)
+	if keyID != "" {
+		genKey = keyID
+	}
+	d := &depInfo{version: 1, key: key, evm: evm, value: value, outIdx: 0, nOuts: 2, keyID: keyID,
+		gen: Ev{"key": genKey, "evm": hex.EncodeToString(evm), "version": 1, "magicOk": true}}
 	d.raw, d.txid = btc.Tx(g.r, []btc.Out{{Value: value, Script: out0}, {Value: 0, Script: out1}}, 0)
 	return d
 }
@@ -288,7 +301,11 @@ func (g *bridgeGen) depositItem(d *depInfo, flaw string) (*bitcointypes.Deposit,
 	dep := &bitcointypes.Deposit{Version: d.version, BlockNumber: d.blk, TxIndex: uint32(d.pos), NoWitnessTx: d.raw, OutputIndex: uint32(d.outIdx),
 		IntermediateProof: flat(blk.tree.Path(d.pos)), EvmAddress: d.evm, RelayerPubkey: d.key.Pub}
 	hdr := &bitcointypes.BlockHeader{Height: d.blk, Raw: blk.header}
-	f := Ev{"wf": true, "key": project.KeyID(d.key.Pub), "keyType": keyType(d.key), "blk": int64(d.blk), "pos": d.pos, "hdr": project.H6(blk.hash), "parseOk": true,
+	kid := project.KeyID(d.key.Pub)
+	if d.keyID != "" {
+		kid = d.keyID
+	}
+	f := Ev{"wf": true, "key": kid, "keyType": keyType(d.key), "blk": int64(d.blk), "pos": d.pos, "hdr": project.H6(blk.hash), "parseOk": true,
 		"txid": project.H6(d.txid), "nOuts": d.nOuts, "outIdx": d.outIdx, "value": d.value, "version": int(d.version), "evm": hex.EncodeToString(d.evm),
 		"spvOk": true, "gen": d.gen, "flaw": flaw}
 	switch flaw {
@@ -615,7 +632,11 @@ func (g *bridgeGen) plan(mode string) (*BlockPlan, error) {
 	var wds, rbfs, taxes []Ev
 	var cancels, confs, minDeps []int64
 	if rare(3) || (mode == "addr" && rare(2)) {
-		for k := 1 + r.Intn(3); k > 0; k-- {
+		nw := 1 + r.Intn(3)
+		if rare(6) {
+			nw = 8 + r.Intn(6) // many withdrawals requested in one execution block
+		}
+		for k := nw; k > 0; k-- {
 			addr, net, kind := g.newAddress()
 			if n := len(br.Withdraws); n > 0 && rare(3) { // the same address as the request before it (valid or not) in one batch
 				addr, net, kind = br.Withdraws[n-1].Address, wds[n-1]["net"].(string), wds[n-1]["kind"].(string)
@@ -1050,8 +1071,12 @@ func (g *bridgeGen) processTx(vc *voteCtx, st *project.BridgeState) (*brTx, erro
 		p := st.Proc[r.Intn(len(st.Proc))]
 		ids, pid, prevFee = p.IDs, p.Pid, p.Fee
 	} else {
+		maxIDs := 3
+		if rare(5) {
+			maxIDs = 9 + r.Intn(6) // a large batch: more paid notices than one execution block delivers (8)
+		}
 		for _, w := range st.Wd {
-			if (w.Status == "pending" || w.Status == "canceling") && rare(2) && len(ids) < 3 {
+			if (w.Status == "pending" || w.Status == "canceling") && (rare(2) || maxIDs > 3) && len(ids) < maxIDs {
 				ids = append(ids, w.ID)
 			}
 		}
